@@ -27,7 +27,7 @@ X = np.array([0.0, 1.0, -3.5, 100.0, 12345.678])
 
 def _close(got, exp):
     got, exp = np.asarray(got, float), np.asarray(exp, float)
-    scale = max(1.0, float(np.max(np.abs(exp))))
+    scale = max(1.0e-300, float(np.max(np.abs(exp))))  # relative to the converted numbers themselves: no absolute floor
     return got.shape == exp.shape and np.allclose(got, exp, rtol=1e-9, atol=1e-9 * scale)
 
 
@@ -173,7 +173,30 @@ def q_link(a, b, ctx, publish_unit=None, masked=False, flipped=False):
             return
 
 
-HELPERS = ["compat", "equiv", "to_units", "prepare", "link", "publish", "prepare_m", "publish_m", "link_m", "link_t"]
+def q_big(a, b, ctx):
+    """to_units and prepare on arrays of 2^14 - 1, 2^14 and 66 000 entries (conversion paths may depend on the size)"""
+    import finam as fm
+    from finam.data import tools
+
+    if not hu.compatible(a, b):
+        return
+    for n in (16383, 16384, 66000):
+        x = np.tile(X, n // len(X) + 1)[:n] + 0.125 * (np.arange(n) % 7)
+        exp = x if hu.equivalent(a, b) else hu.convert(x, a, b)
+        try:
+            r = tools.to_units(tools.UNITS.Quantity(x.copy(), a), b)
+            p = tools.prepare(tools.UNITS.Quantity(x.copy(), a), fm.Info(time=hs.T0, grid=fm.NoGrid(1), units=b))
+        except Exception as e:  # pylint: disable=broad-except
+            ctx.violation("big-raw-error", f"conversion of {n} values {a!r} -> {b!r}: {type(e).__name__}: {e}")
+            return
+        for name, got in (("to_units", np.asarray(r.magnitude)), ("prepare", np.asarray(p.magnitude)[0])):
+            if got.shape != exp.shape or not _close(got, exp):
+                bad = int(np.sum(~np.isclose(got, exp, rtol=1e-9, atol=0))) if got.shape == exp.shape else -1
+                ctx.violation(f"{name}-values-large-array", f"{name} of {n} values {a!r} -> {b!r}: {bad} entries differ from the physical conversion, e.g. {got.ravel()[3]} vs {exp[3]}")
+                return
+
+
+HELPERS = ["compat", "equiv", "to_units", "prepare", "link", "publish", "prepare_m", "publish_m", "link_m", "link_t", "big"]
 
 
 def run_query(q, ctx):
@@ -199,6 +222,8 @@ def run_query(q, ctx):
         q_link(a, b, ctx, masked=True)
     elif h == "link_t":
         q_link(a, b, ctx, flipped=True)
+    elif h == "big":
+        q_big(a, b, ctx)
 
 
 def check_pair(case, ctx):
